@@ -1,7 +1,795 @@
 import Mathlib.Tactic.Linarith
 import Mathlib.Algebra.Order.Ring.Rat
 import Mathlib.Data.List.Basic
+import Mathlib.Data.List.Perm.Basic
+import Mathlib.Data.String.Basic
+import Mathlib.Data.Finset.Card
+import Mathlib.Algebra.BigOperators.Group.List.Basic
 import PgFdr.Model.C06
 
+/-! Helper lemmas for C06: the evidence sort, the count loop, the best peptide, the shape of a row,
+    the positional loop of `from_protein_groups`. -/
 namespace PgFdr.C06
+
+/-! ### `sorted(evidence)` -/
+
+theorem evLt_pep_le {a b : Evidence} (h : evLt a b = true) : a.pep ≤ b.pep := by
+  unfold evLt at h
+  simp only [Bool.or_eq_true, Bool.and_eq_true, decide_eq_true_eq, beq_iff_eq] at h
+  rcases h with h | ⟨h, -⟩
+  · exact le_of_lt h
+  · exact le_of_eq h
+
+theorem not_evLt_pep_le {a b : Evidence} (h : evLt b a = false) : a.pep ≤ b.pep := by
+  unfold evLt at h
+  simp only [Bool.or_eq_false_iff, decide_eq_false_iff_not, not_lt] at h
+  exact h.1
+
+theorem insertEv_perm (a : Evidence) : ∀ l, (insertEv a l).Perm (a :: l) := by
+  intro l
+  induction l with
+  | nil => exact List.Perm.refl _
+  | cons b l ih =>
+    simp only [insertEv]
+    split
+    · exact ((List.Perm.cons b ih).trans (List.Perm.swap a b l))
+    · exact List.Perm.refl _
+
+theorem sortEv_perm (l : List Evidence) : (sortEv l).Perm l := by
+  induction l with
+  | nil => exact List.Perm.refl _
+  | cons a l ih =>
+    show (insertEv a (sortEv l)).Perm (a :: l)
+    exact (insertEv_perm a _).trans (List.Perm.cons a ih)
+
+theorem insertEv_pairwise (a : Evidence) : ∀ l, l.Pairwise (fun x y => x.pep ≤ y.pep) →
+    (insertEv a l).Pairwise (fun x y => x.pep ≤ y.pep) := by
+  intro l
+  induction l with
+  | nil => intro _; simp [insertEv]
+  | cons b l ih =>
+    intro h
+    have hb := (List.pairwise_cons.mp h).1
+    have hl := (List.pairwise_cons.mp h).2
+    simp only [insertEv]
+    by_cases hba : evLt b a = true
+    · simp only [hba, if_true]
+      refine List.pairwise_cons.mpr ⟨?_, ih hl⟩
+      intro x hx
+      rcases List.mem_cons.mp ((insertEv_perm a l).subset hx) with rfl | hx
+      · exact evLt_pep_le hba
+      · exact hb x hx
+    · have hba' : evLt b a = false := by simpa using hba
+      simp only [hba', Bool.false_eq_true, if_false]
+      have hab := not_evLt_pep_le hba'
+      refine List.pairwise_cons.mpr ⟨?_, h⟩
+      intro x hx
+      rcases List.mem_cons.mp hx with rfl | hx
+      · exact hab
+      · exact le_trans hab (hb x hx)
+
+theorem sortEv_pairwise (l : List Evidence) : (sortEv l).Pairwise (fun x y => x.pep ≤ y.pep) := by
+  induction l with
+  | nil => simp [sortEv]
+  | cons a l ih => exact insertEv_pairwise a _ ih
+
+/-! ### the count loop -/
+
+/-- with pairwise distinct peptides nothing is ever skipped as "seen", and the `break` at the first
+    PEP above the cutoff of the ascending list is a filter -/
+theorem countLoop_nodup (cutoff : Option Rat) (p : String) :
+    ∀ (l : List Evidence) (seen : List String),
+      (l.map (·.peptide)).Nodup → (∀ e ∈ l, e.peptide ∉ seen) →
+      l.Pairwise (fun a b => a.pep ≤ b.pep) →
+      countLoop cutoff p l seen =
+        (l.filter (fun e => within cutoff e && decide (p ∈ e.proteins))).length := by
+  intro l
+  induction l with
+  | nil => intro _ _ _ _; rfl
+  | cons e r ih =>
+    intro seen hnd hseen hsort
+    have hnd' : (r.map (·.peptide)).Nodup := (List.nodup_cons.mp (by simpa using hnd)).2
+    have he_notin : e.peptide ∉ r.map (·.peptide) := (List.nodup_cons.mp (by simpa using hnd)).1
+    have hsort' := (List.pairwise_cons.mp hsort).2
+    have hle := (List.pairwise_cons.mp hsort).1
+    have hes : e.peptide ∉ seen := hseen e (by simp)
+    have hseen' : ∀ e' ∈ r, e'.peptide ∉ e.peptide :: seen := by
+      intro e' he'
+      simp only [List.mem_cons, not_or]
+      refine ⟨?_, hseen e' (by simp [he'])⟩
+      intro heq
+      exact he_notin (heq ▸ List.mem_map_of_mem he')
+    simp only [countLoop]
+    by_cases hw : within cutoff e = true
+    · simp only [hw, Bool.not_true, Bool.false_eq_true, if_false, hes]
+      rw [ih (e.peptide :: seen) hnd' hseen' hsort']
+      by_cases hp : p ∈ e.proteins
+      · simp [hw, hp, Nat.add_comm]
+      · simp [hw, hp]
+    · have hw' : within cutoff e = false := by simpa using hw
+      simp only [hw', Bool.not_false, if_true]
+      -- everything from here on is above the cutoff
+      have hall : ∀ e' ∈ e :: r, within cutoff e' = false := by
+        intro e' he'
+        rcases List.mem_cons.mp he' with rfl | he'
+        · exact hw'
+        · cases cutoff with
+          | none => simp [within] at hw'
+          | some c =>
+            simp only [within, decide_eq_false_iff_not, not_le] at hw' ⊢
+            exact lt_of_lt_of_le hw' (hle e' he')
+      symm
+      rw [List.length_eq_zero_iff, List.filter_eq_nil_iff]
+      intro e' he'
+      simp [hall e' he']
+
+/-- the number `_get_peptide_counts` reports for `p`: entries at or below the cutoff listing `p` -/
+theorem countLoop_sortEv (cutoff : Option Rat) (info : List Evidence) (p : String)
+    (hnd : (info.map (·.peptide)).Nodup) :
+    countLoop cutoff p (sortEv info) [] =
+      (info.filter (fun e => within cutoff e && decide (p ∈ e.proteins))).length := by
+  have hperm := sortEv_perm info
+  rw [countLoop_nodup cutoff p (sortEv info) [] ((hperm.map _).nodup_iff.mpr hnd) (by simp)
+    (sortEv_pairwise info)]
+  exact (hperm.filter _).length_eq
+
+theorem peptideCounts_eq (cutoff : Option Rat) (info : List Evidence) (group : List String) :
+    peptideCounts cutoff info group = group.map (fun p => countLoop cutoff p (sortEv info) []) := rfl
+
+/-! ### the best peptide -/
+
+/-- `a ≤ b` for Python's tuple order on `(PEP, peptide)` -/
+def ppLe (a b : Rat × String) : Prop := a.1 < b.1 ∨ (a.1 = b.1 ∧ a.2 ≤ b.2)
+
+theorem ppLe_refl (a : Rat × String) : ppLe a a := Or.inr ⟨rfl, le_refl _⟩
+
+theorem ppLe_trans {a b c : Rat × String} (h1 : ppLe a b) (h2 : ppLe b c) : ppLe a c := by
+  rcases h1 with h1 | ⟨h1, h1'⟩ <;> rcases h2 with h2 | ⟨h2, h2'⟩
+  · exact Or.inl (lt_trans h1 h2)
+  · exact Or.inl (h2 ▸ h1)
+  · exact Or.inl (h1 ▸ h2)
+  · exact Or.inr ⟨h1.trans h2, le_trans h1' h2'⟩
+
+theorem ppLt_true {a b : Rat × String} (h : ppLt a b = true) : ppLe a b := by
+  unfold ppLt at h
+  simp only [Bool.or_eq_true, Bool.and_eq_true, decide_eq_true_eq, beq_iff_eq] at h
+  rcases h with h | ⟨h, h'⟩
+  · exact Or.inl h
+  · exact Or.inr ⟨h, le_of_lt h'⟩
+
+theorem ppLt_false {a b : Rat × String} (h : ppLt a b = false) : ppLe b a := by
+  unfold ppLt at h
+  simp only [Bool.or_eq_false_iff, decide_eq_false_iff_not, not_lt, Bool.and_eq_false_iff,
+    beq_eq_false_iff_ne, ne_eq] at h
+  obtain ⟨h1, h2⟩ := h
+  rcases lt_or_eq_of_le h1 with h3 | h3
+  · exact Or.inl h3
+  · rcases h2 with h2 | h2
+    · exact absurd h3.symm h2
+    · exact Or.inr ⟨h3, h2⟩
+
+theorem foldMin_spec : ∀ (l : List Evidence) (m : Rat × String),
+    let r := l.foldl (fun m x => if ppLt (x.pep, x.peptide) m then (x.pep, x.peptide) else m) m
+    (r = m ∨ ∃ x ∈ l, r = (x.pep, x.peptide)) ∧ ppLe r m ∧ ∀ x ∈ l, ppLe r (x.pep, x.peptide) := by
+  intro l
+  induction l with
+  | nil => intro m; exact ⟨Or.inl rfl, ppLe_refl _, by simp⟩
+  | cons y ys ih =>
+    intro m
+    simp only [List.foldl_cons]
+    by_cases hy : ppLt (y.pep, y.peptide) m = true
+    · simp only [hy, if_true]
+      obtain ⟨h1, h2, h3⟩ := ih (y.pep, y.peptide)
+      refine ⟨?_, ppLe_trans h2 (ppLt_true hy), ?_⟩
+      · rcases h1 with h1 | ⟨x, hx, h1⟩
+        · exact Or.inr ⟨y, by simp, h1⟩
+        · exact Or.inr ⟨x, by simp [hx], h1⟩
+      · intro x hx
+        rcases List.mem_cons.mp hx with rfl | hx
+        · exact h2
+        · exact h3 x hx
+    · have hy' : ppLt (y.pep, y.peptide) m = false := by simpa using hy
+      simp only [hy', Bool.false_eq_true, if_false]
+      obtain ⟨h1, h2, h3⟩ := ih m
+      refine ⟨?_, h2, ?_⟩
+      · rcases h1 with h1 | ⟨x, hx, h1⟩
+        · exact Or.inl h1
+        · exact Or.inr ⟨x, by simp [hx], h1⟩
+      · intro x hx
+        rcases List.mem_cons.mp hx with rfl | hx
+        · exact ppLe_trans h2 (ppLt_false hy')
+        · exact h3 x hx
+
+/-- the best pair is an evidence entry's `(PEP, peptide)` and is minimal in Python's tuple order -/
+theorem bestPair_spec (info : List Evidence) (v : Rat) (s : String) (h : bestPair info = some (v, s)) :
+    (∃ e ∈ info, e.pep = v ∧ e.peptide = s) ∧
+    ∀ e ∈ info, v ≤ e.pep ∧ (e.pep = v → s ≤ e.peptide) := by
+  cases info with
+  | nil => simp [bestPair] at h
+  | cons e r =>
+    simp only [bestPair, Option.some.injEq] at h
+    obtain ⟨h1, h2, h3⟩ := foldMin_spec r (e.pep, e.peptide)
+    simp only [h] at h1 h2 h3
+    have hall : ∀ x ∈ e :: r, ppLe (v, s) (x.pep, x.peptide) := by
+      intro x hx
+      rcases List.mem_cons.mp hx with rfl | hx
+      · exact h2
+      · exact h3 x hx
+    constructor
+    · rcases h1 with h1 | ⟨x, hx, h1⟩
+      · refine ⟨e, by simp, ?_, ?_⟩
+        · exact (congrArg Prod.fst h1).symm
+        · exact (congrArg Prod.snd h1).symm
+      · refine ⟨x, by simp [hx], ?_, ?_⟩
+        · exact (congrArg Prod.fst h1).symm
+        · exact (congrArg Prod.snd h1).symm
+    · intro x hx
+      rcases hall x hx with h4 | ⟨h4, h5⟩
+      · exact ⟨le_of_lt h4, fun h6 => absurd h4 (by simp only [h6]; exact lt_irrefl _)⟩
+      · exact ⟨le_of_eq h4, fun _ => h5⟩
+
+theorem bestPair_isSome (info : List Evidence) : (bestPair info).isSome = !info.isEmpty := by
+  cases info <;> simp [bestPair]
+
+/-! ### distinct peptides -/
+
+theorem eraseDups_of_nodup {α : Type} [DecidableEq α] : ∀ (l : List α), l.Nodup → l.eraseDups = l := by
+  intro l
+  induction l with
+  | nil => intro _; simp
+  | cons a l ih =>
+    intro h
+    have ha : a ∉ l := (List.nodup_cons.mp h).1
+    have hl : l.Nodup := (List.nodup_cons.mp h).2
+    rw [List.eraseDups_cons]
+    have : l.filter (fun b => !b == a) = l := by
+      rw [List.filter_eq_self]
+      intro x hx
+      have : x ≠ a := fun e => ha (e ▸ hx)
+      simpa using this
+    rw [this, ih hl]
+
+/-- with pairwise distinct evidence peptides the number of supporting entries is the number of
+    distinct supporting peptides -/
+theorem distinctCount_of_nodup (cutoff : Option Rat) (info : List Evidence) (p : String)
+    (hnd : (info.map (·.peptide)).Nodup) :
+    distinctCount cutoff info p = (supporting cutoff info p).length := by
+  unfold distinctCount
+  have : ((supporting cutoff info p).map (·.peptide)).Nodup := by
+    unfold supporting
+    exact hnd.sublist ((List.filter_sublist).map _)
+  rw [eraseDups_of_nodup _ this, List.length_map]
+
+theorem count_eq_distinctCount (cutoff : Option Rat) (info : List Evidence) (p : String)
+    (hnd : (info.map (·.peptide)).Nodup) :
+    countLoop cutoff p (sortEv info) [] = distinctCount cutoff info p := by
+  rw [countLoop_sortEv cutoff info p hnd, distinctCount_of_nodup cutoff info p hnd]; rfl
+
+/-! ### the shape of a row -/
+
+theorem zip_map_self {α β : Type} (f : α → β) : ∀ l : List α, l.zip (l.map f) = l.map (fun a => (a, f a)) := by
+  intro l; induction l with
+  | nil => rfl
+  | cons a l ih => simp [ih]
+
+theorem foldl_max_spec : ∀ (l : List Nat) (m : Nat),
+    (∀ c ∈ l, c ≤ l.foldl max m) ∧ m ≤ l.foldl max m ∧ (l.foldl max m = m ∨ l.foldl max m ∈ l) := by
+  intro l
+  induction l with
+  | nil => intro m; simp
+  | cons a l ih =>
+    intro m
+    obtain ⟨h1, h2, h3⟩ := ih (max m a)
+    simp only [List.foldl_cons]
+    refine ⟨?_, le_trans (le_max_left m a) h2, ?_⟩
+    · intro c hc
+      rcases List.mem_cons.mp hc with rfl | hc
+      · exact le_trans (le_max_right m _) h2
+      · exact h1 c hc
+    · rcases h3 with h3 | h3
+      · rcases le_total m a with hma | hma
+        · right; rw [h3, max_eq_right hma]; simp
+        · left; rw [h3, max_eq_left hma]
+      · right; exact List.mem_cons_of_mem _ h3
+
+/-- `max(counts)` of a non-empty list: an upper bound that is attained -/
+theorem maxCount_spec (l : List Nat) (hne : l ≠ []) : (∀ c ∈ l, c ≤ maxCount l) ∧ maxCount l ∈ l := by
+  obtain ⟨h1, -, h3⟩ := foldl_max_spec l 0
+  refine ⟨h1, ?_⟩
+  rcases h3 with h3 | h3
+  · -- the maximum is 0: every entry is 0, and there is one
+    obtain ⟨a, ha⟩ := List.exists_mem_of_ne_nil l hne
+    have : a = 0 := by have := h1 a ha; rw [h3] at this; omega
+    unfold maxCount; rw [h3]; exact this ▸ ha
+  · exact h3
+
+/-- the per-protein count the model uses -/
+abbrev cnt (cutoff : Option Rat) (info : List Evidence) (p : String) : Nat :=
+  countLoop cutoff p (sortEv info) []
+
+theorem cnt_eq_distinctCount (cutoff : Option Rat) (info : List Evidence) (p : String)
+    (hnd : (info.map (·.peptide)).Nodup) : cnt cutoff info p = distinctCount cutoff info p :=
+  count_eq_distinctCount cutoff info p hnd
+
+/-- `from_protein_group` with the zip/filter/unzip of pairs written as filters of the member list -/
+theorem fromProteinGroup_eq (g : List String) (info : List Evidence) (q s : Rat)
+    (cutoff : Option Rat) (keepAll : Bool) :
+    fromProteinGroup g info q s cutoff keepAll =
+      if ((g.map (cnt cutoff info)).sum == 0 && !keepAll) = true then .ok none
+      else if (g.filter (fun p => decide (0 < cnt cutoff info p) || keepAll)).isEmpty = true then
+        .error "empty_group"
+      else
+        match bestPeptide info with
+        | none => .error "no_evidence"
+        | some best =>
+          .ok (some {
+            proteins := g.filter (fun p => decide (0 < cnt cutoff info p) || keepAll)
+            majority := (g.filter (fun p => decide (0 < cnt cutoff info p) || keepAll)).filter
+              (fun p => decide (maxCount ((g.filter (fun p => decide (0 < cnt cutoff info p) || keepAll)).map
+                (cnt cutoff info)) ≤ 2 * cnt cutoff info p))
+            counts := (g.filter (fun p => decide (0 < cnt cutoff info p) || keepAll)).map (cnt cutoff info)
+            bestPeptide := best
+            numberOfProteins := (g.filter (fun p => decide (0 < cnt cutoff info p) || keepAll)).length
+            qValue := q
+            score := s
+            reverse := isDecoy (g.filter (fun p => decide (0 < cnt cutoff info p) || keepAll))
+            contaminant := isContaminant (g.filter (fun p => decide (0 < cnt cutoff info p) || keepAll)) }) := by
+  have hkept : (g.zip (g.map (cnt cutoff info))).filter (fun pc => decide (0 < pc.2) || keepAll) =
+      (g.filter (fun p => decide (0 < cnt cutoff info p) || keepAll)).map (fun a => (a, cnt cutoff info a)) := by
+    rw [zip_map_self, List.filter_map]; rfl
+  have hfst : ∀ l : List String, (l.map (fun a => (a, cnt cutoff info a))).map (·.1) = l := by
+    intro l; induction l with
+    | nil => rfl
+    | cons a l ih => simp only [List.map_cons, ih]
+  have hsnd : ∀ l : List String, (l.map (fun a => (a, cnt cutoff info a))).map (·.2) = l.map (cnt cutoff info) := by
+    intro l; simp
+  have hmaj : ∀ (l : List String) (M : Nat),
+      ((l.map (fun a => (a, cnt cutoff info a))).filter (fun pc => decide (M ≤ 2 * pc.2))).map (·.1) =
+        l.filter (fun p => decide (M ≤ 2 * cnt cutoff info p)) := by
+    intro l M
+    rw [List.filter_map, List.map_map]
+    simp [Function.comp_def]
+  unfold fromProteinGroup
+  simp only [peptideCounts_eq]
+  show (if (((g.map (cnt cutoff info)).sum == 0 && !keepAll) = true) then _ else _) = _
+  simp only [hkept, hfst, hsnd, hmaj, List.isEmpty_map]
+  rfl
+
+/-- everything `from_protein_group` puts into a row, in terms of the count function -/
+theorem fromProteinGroup_some (g : List String) (info : List Evidence) (q s : Rat)
+    (cutoff : Option Rat) (keepAll : Bool) (row : RowData)
+    (h : fromProteinGroup g info q s cutoff keepAll = .ok (some row)) :
+    row.proteins = g.filter (fun p => decide (0 < cnt cutoff info p) || keepAll) ∧
+    row.counts = row.proteins.map (cnt cutoff info) ∧
+    row.majority = row.proteins.filter (fun p => decide (maxCount row.counts ≤ 2 * cnt cutoff info p)) ∧
+    bestPeptide info = some row.bestPeptide ∧
+    row.numberOfProteins = row.proteins.length ∧ row.qValue = q ∧ row.score = s ∧
+    row.reverse = isDecoy row.proteins ∧ row.contaminant = isContaminant row.proteins ∧
+    row.proteins ≠ [] ∧ (keepAll = true ∨ ∃ p ∈ g, 0 < cnt cutoff info p) := by
+  rw [fromProteinGroup_eq] at h
+  split at h
+  · simp at h
+  · rename_i hsum
+    split at h
+    · simp at h
+    · rename_i hkept
+      cases hb : bestPeptide info with
+      | none => simp [hb] at h
+      | some best =>
+        simp only [hb, Except.ok.injEq, Option.some.injEq] at h
+        subst h
+        refine ⟨rfl, rfl, rfl, rfl, rfl, rfl, rfl, rfl, rfl, ?_, ?_⟩
+        · intro hnil
+          exact hkept (List.isEmpty_iff.mpr hnil)
+        · by_cases hk : keepAll = true
+          · exact Or.inl hk
+          · right
+            have hk' : keepAll = false := by simpa using hk
+            simp only [hk', Bool.not_false, Bool.and_true, beq_iff_eq] at hsum
+            rw [List.sum_eq_zero_iff_forall_eq_nat] at hsum
+            by_contra hno
+            apply hsum
+            intro c hc
+            obtain ⟨p, hp, rfl⟩ := List.mem_map.mp hc
+            by_contra hc0
+            exact hno ⟨p, hp, Nat.pos_of_ne_zero hc0⟩
+
+/-- a group is omitted exactly when keep-all is off and no member has a count -/
+theorem fromProteinGroup_none_iff (g : List String) (info : List Evidence) (q s : Rat)
+    (cutoff : Option Rat) (keepAll : Bool) :
+    fromProteinGroup g info q s cutoff keepAll = .ok none ↔
+      keepAll = false ∧ ∀ p ∈ g, cnt cutoff info p = 0 := by
+  rw [fromProteinGroup_eq]
+  constructor
+  · intro h
+    split at h
+    · rename_i hsum
+      simp only [Bool.and_eq_true, beq_iff_eq, Bool.not_eq_eq_eq_not, Bool.not_true] at hsum
+      refine ⟨hsum.2, ?_⟩
+      intro p hp
+      exact (List.sum_eq_zero_iff_forall_eq_nat.mp hsum.1) _ (List.mem_map.mpr ⟨p, hp, rfl⟩)
+    · split at h
+      · simp at h
+      · split at h <;> simp at h
+  · rintro ⟨hk, hz⟩
+    have : (g.map (cnt cutoff info)).sum = 0 := by
+      rw [List.sum_eq_zero_iff_forall_eq_nat]
+      intro c hc
+      obtain ⟨p, hp, rfl⟩ := List.mem_map.mp hc
+      exact hz p hp
+    simp [this, hk]
+
+theorem bestPeptide_none {info : List Evidence} (h : bestPeptide info = none) : info = [] := by
+  cases info with
+  | nil => rfl
+  | cons a l => simp [bestPeptide, bestPair] at h
+
+/-- the errors of `from_protein_group`: only with keep-all, for an empty group or a group without
+    any evidence -/
+theorem fromProteinGroup_error (g : List String) (info : List Evidence) (q s : Rat)
+    (cutoff : Option Rat) (keepAll : Bool) (e : String)
+    (h : fromProteinGroup g info q s cutoff keepAll = .error e) :
+    keepAll = true ∧ ((e = "empty_group" ∧ g = []) ∨ (e = "no_evidence" ∧ info = [])) := by
+  rw [fromProteinGroup_eq] at h
+  split at h
+  · simp at h
+  · rename_i hsum
+    have hk : keepAll = true := by
+      by_contra hk
+      have hk' : keepAll = false := by simpa using hk
+      apply hsum
+      simp only [hk', Bool.not_false, Bool.and_true, beq_iff_eq]
+      rw [List.sum_eq_zero_iff_forall_eq_nat]
+      intro c hc
+      obtain ⟨p, hp, rfl⟩ := List.mem_map.mp hc
+      split at h
+      · rename_i hkept
+        rw [List.isEmpty_iff, List.filter_eq_nil_iff] at hkept
+        have := hkept p hp
+        simpa [hk'] using this
+      · cases hb : bestPeptide info with
+        | some b => simp [hb] at h
+        | none => simp [bestPeptide_none hb, cnt, sortEv, countLoop]
+    refine ⟨hk, ?_⟩
+    split at h
+    · rename_i hkept
+      left
+      simp only [Except.error.injEq] at h
+      refine ⟨h.symm, ?_⟩
+      rw [List.isEmpty_iff, List.filter_eq_nil_iff] at hkept
+      cases g with
+      | nil => rfl
+      | cons p g' =>
+        have := hkept p (by simp)
+        simp [hk] at this
+    · right
+      cases hb : bestPeptide info with
+      | some b => simp [hb] at h
+      | none =>
+        simp only [hb, Except.error.injEq] at h
+        exact ⟨h.symm, bestPeptide_none hb⟩
+
+/-! ### the positional loop of `from_protein_groups` -/
+
+/-- position `i` of the zipped input is reported as `row` -/
+def Reported (cutoff : Option Rat) (keepAll : Bool) (sl : List Slot) (i : Nat) (row : RowData) : Prop :=
+  ∃ g info s q, sl[i]? = some (g, info, s, q) ∧ isObsolete g = false ∧
+    fromProteinGroup g info q s cutoff keepAll = .ok (some row)
+
+/-- position `i` of the zipped input is withheld: a placeholder, or a group `from_protein_group` omits -/
+def Withheld (cutoff : Option Rat) (keepAll : Bool) (sl : List Slot) (i : Nat) : Prop :=
+  ∃ g info s q, sl[i]? = some (g, info, s, q) ∧
+    (isObsolete g = true ∨ fromProteinGroup g info q s cutoff keepAll = .ok none)
+
+/-- `idx` lists, in increasing order, the positions that are reported; `rows` are their rows -/
+def Aligned (cutoff : Option Rat) (keepAll : Bool) (sl : List Slot) (idx : List Nat) (rows : List RowData) : Prop :=
+  idx.Pairwise (· < ·) ∧ idx.length = rows.length ∧
+  (∀ (k i : Nat), idx[k]? = some i → ∃ row, rows[k]? = some row ∧ Reported cutoff keepAll sl i row) ∧
+  (∀ i, i < sl.length → i ∉ idx → Withheld cutoff keepAll sl i)
+
+theorem aligned_shift (cutoff : Option Rat) (keepAll : Bool) (x : Slot) (rest : List Slot)
+    (idx : List Nat) (rows : List RowData) (h : Aligned cutoff keepAll rest idx rows) :
+    (idx.map (· + 1)).Pairwise (· < ·) ∧ (idx.map (· + 1)).length = rows.length ∧
+    (∀ (k i : Nat), (idx.map (· + 1))[k]? = some i → ∃ row, rows[k]? = some row ∧ Reported cutoff keepAll (x :: rest) i row) ∧
+    (∀ i, i < (x :: rest).length → i ≠ 0 → i ∉ idx.map (· + 1) → Withheld cutoff keepAll (x :: rest) i) ∧
+    (∀ i ∈ idx.map (· + 1), 0 < i) := by
+  obtain ⟨h1, h2, h3, h4⟩ := h
+  refine ⟨?_, by simpa using h2, ?_, ?_, ?_⟩
+  · exact List.Pairwise.map _ (fun a b hab => Nat.succ_lt_succ hab) h1
+  · intro k i hk
+    rw [List.getElem?_map] at hk
+    cases hi : idx[k]? with
+    | none => simp [hi] at hk
+    | some i' =>
+      simp only [hi, Option.map_some, Option.some.injEq] at hk
+      subst hk
+      obtain ⟨row, hr, g, info, s, q, hsl, ho, hf⟩ := h3 k i' hi
+      exact ⟨row, hr, g, info, s, q, by simpa using hsl, ho, hf⟩
+  · intro i hi hi0 hni
+    cases i with
+    | zero => exact absurd rfl hi0
+    | succ i' =>
+      have : i' ∉ idx := fun hmem => hni (List.mem_map.mpr ⟨i', hmem, rfl⟩)
+      obtain ⟨g, info, s, q, hsl, hw⟩ := h4 i' (by simpa using hi) this
+      exact ⟨g, info, s, q, by simpa using hsl, hw⟩
+  · intro i hi
+    obtain ⟨j, -, rfl⟩ := List.mem_map.mp hi
+    omega
+
+/-- what the loop returns: the rows of the reported positions, in position order -/
+theorem rowsOfSlots_aligned (cutoff : Option Rat) (keepAll : Bool) :
+    ∀ (sl : List Slot) (rows : List RowData), rowsOfSlots cutoff keepAll sl = .ok rows →
+      ∃ idx, Aligned cutoff keepAll sl idx rows := by
+  intro sl
+  induction sl with
+  | nil =>
+    intro rows h
+    simp only [rowsOfSlots, Except.ok.injEq] at h
+    subst h
+    exact ⟨[], by simp, rfl, by simp, by simp⟩
+  | cons x rest ih =>
+    intro rows h
+    obtain ⟨g, info, s, q⟩ := x
+    simp only [rowsOfSlots] at h
+    by_cases hobs : isObsolete g = true
+    · simp only [hobs, if_true] at h
+      obtain ⟨idx, hal⟩ := ih rows h
+      obtain ⟨a1, a2, a3, a4, a5⟩ := aligned_shift cutoff keepAll (g, info, s, q) rest idx rows hal
+      refine ⟨idx.map (· + 1), a1, a2, a3, ?_⟩
+      intro i hi hni
+      by_cases hi0 : i = 0
+      · subst hi0; exact ⟨g, info, s, q, by simp, Or.inl hobs⟩
+      · exact a4 i hi hi0 hni
+    · have hobs' : isObsolete g = false := by simpa using hobs
+      simp only [hobs', Bool.false_eq_true, if_false] at h
+      cases hf : fromProteinGroup g info q s cutoff keepAll with
+      | error e => simp [hf] at h
+      | ok r =>
+        cases r with
+        | none =>
+          simp only [hf] at h
+          obtain ⟨idx, hal⟩ := ih rows h
+          obtain ⟨a1, a2, a3, a4, a5⟩ := aligned_shift cutoff keepAll (g, info, s, q) rest idx rows hal
+          refine ⟨idx.map (· + 1), a1, a2, a3, ?_⟩
+          intro i hi hni
+          by_cases hi0 : i = 0
+          · subst hi0; exact ⟨g, info, s, q, by simp, Or.inr hf⟩
+          · exact a4 i hi hi0 hni
+        | some row =>
+          simp only [hf] at h
+          cases hrest : rowsOfSlots cutoff keepAll rest with
+          | error e => simp [hrest] at h
+          | ok rows' =>
+            simp only [hrest, Except.ok.injEq] at h
+            subst h
+            obtain ⟨idx, hal⟩ := ih rows' hrest
+            obtain ⟨a1, a2, a3, a4, a5⟩ := aligned_shift cutoff keepAll (g, info, s, q) rest idx rows' hal
+            refine ⟨0 :: idx.map (· + 1), ?_, by simp [a2], ?_, ?_⟩
+            · exact List.pairwise_cons.mpr ⟨a5, a1⟩
+            · intro k i hk
+              cases k with
+              | zero =>
+                simp only [List.getElem?_cons_zero, Option.some.injEq] at hk
+                subst hk
+                exact ⟨row, by simp, g, info, s, q, by simp, hobs', hf⟩
+              | succ k =>
+                simp only [List.getElem?_cons_succ] at hk ⊢
+                exact a3 k i hk
+            · intro i hi hni
+              have hi0 : i ≠ 0 := fun e => hni (e ▸ List.mem_cons_self)
+              exact a4 i hi hi0 (fun hm => hni (List.mem_cons_of_mem _ hm))
+
+/-- an error of the loop is the error of a position that is not a placeholder -/
+theorem rowsOfSlots_error (cutoff : Option Rat) (keepAll : Bool) :
+    ∀ (sl : List Slot) (e : String), rowsOfSlots cutoff keepAll sl = .error e →
+      ∃ g info s q, (g, info, s, q) ∈ sl ∧ isObsolete g = false ∧
+        fromProteinGroup g info q s cutoff keepAll = .error e := by
+  intro sl
+  induction sl with
+  | nil => intro e h; simp [rowsOfSlots] at h
+  | cons x rest ih =>
+    intro e h
+    obtain ⟨g, info, s, q⟩ := x
+    simp only [rowsOfSlots] at h
+    have lift : (∃ g' info' s' q', (g', info', s', q') ∈ rest ∧ isObsolete g' = false ∧
+        fromProteinGroup g' info' q' s' cutoff keepAll = .error e) →
+        ∃ g' info' s' q', (g', info', s', q') ∈ (g, info, s, q) :: rest ∧ isObsolete g' = false ∧
+        fromProteinGroup g' info' q' s' cutoff keepAll = .error e := by
+      rintro ⟨g', info', s', q', hm, ho, hf⟩
+      exact ⟨g', info', s', q', List.mem_cons_of_mem _ hm, ho, hf⟩
+    by_cases hobs : isObsolete g = true
+    · simp only [hobs, if_true] at h
+      exact lift (ih e h)
+    · have hobs' : isObsolete g = false := by simpa using hobs
+      simp only [hobs', Bool.false_eq_true, if_false] at h
+      cases hf : fromProteinGroup g info q s cutoff keepAll with
+      | error e' =>
+        simp only [hf, Except.error.injEq] at h
+        subst h
+        exact ⟨g, info, s, q, by simp, hobs', hf⟩
+      | ok r =>
+        cases r with
+        | none => simp only [hf] at h; exact lift (ih e h)
+        | some row =>
+          simp only [hf] at h
+          cases hrest : rowsOfSlots cutoff keepAll rest with
+          | error e' =>
+            simp only [hrest, Except.error.injEq] at h
+            subst h
+            exact lift (ih _ hrest)
+          | ok rows' => simp [hrest] at h
+
+/-- a position of the four-way zip -/
+theorem slots_getElem? (groups : List (List String)) (infos : List (List Evidence))
+    (scores qvals : List Rat) (i : Nat) (g : List String) (info : List Evidence) (s q : Rat) :
+    (slots groups infos scores qvals)[i]? = some (g, info, s, q) ↔
+      groups[i]? = some g ∧ infos[i]? = some info ∧ scores[i]? = some s ∧ qvals[i]? = some q := by
+  unfold slots
+  rw [List.getElem?_zip_eq_some]
+  simp only [List.getElem?_zip_eq_some]
+
+theorem slots_length (groups : List (List String)) (infos : List (List Evidence))
+    (scores qvals : List Rat) :
+    (slots groups infos scores qvals).length =
+      min groups.length (min infos.length (min scores.length qvals.length)) := by
+  simp [slots, List.length_zip]
+
+/-- every row comes from a position of the zip, in order (statement: `report_alignment`) -/
+theorem report_alignment_aux (groups : List (List String)) (infos : List (List Evidence))
+    (scores qvals : List Rat) (cutoff : Option Rat) (keepAll : Bool) (rows : List RowData)
+    (h : fromProteinGroups groups infos scores qvals cutoff keepAll = .ok rows) :
+    ∃ idx : List Nat, idx.Pairwise (· < ·) ∧ idx.length = rows.length ∧
+      ∀ (k i : Nat), idx[k]? = some i →
+        ∃ row g info s q, rows[k]? = some row ∧
+          groups[i]? = some g ∧ infos[i]? = some info ∧ scores[i]? = some s ∧ qvals[i]? = some q ∧
+          row.score = s ∧ row.qValue = q ∧ isObsolete g = false ∧
+          fromProteinGroup g info q s cutoff keepAll = .ok (some row) := by
+  obtain ⟨idx, h1, h2, h3, -⟩ := rowsOfSlots_aligned cutoff keepAll _ rows h
+  refine ⟨idx, h1, h2, ?_⟩
+  intro k i hk
+  obtain ⟨row, hr, g, info, s, q, hsl, ho, hf⟩ := h3 k i hk
+  obtain ⟨e1, e2, e3, e4⟩ := (slots_getElem? groups infos scores qvals i g info s q).mp hsl
+  obtain ⟨-, -, -, -, -, hq, hs, -⟩ := fromProteinGroup_some g info q s cutoff keepAll row hf
+  exact ⟨row, g, info, s, q, hr, e1, e2, e3, e4, hs, hq, ho, hf⟩
+
+/-! ### the count without the no-duplicate hypothesis -/
+
+theorem eraseDups_length_eq_card : ∀ (n : Nat) (l : List String), l.length ≤ n →
+    l.eraseDups.length = l.toFinset.card := by
+  intro n
+  induction n with
+  | zero =>
+    intro l hl
+    have : l = [] := List.eq_nil_of_length_eq_zero (by omega)
+    subst this; simp
+  | succ n ih =>
+    intro l hl
+    cases l with
+    | nil => simp
+    | cons a l =>
+      rw [List.eraseDups_cons, List.length_cons]
+      have hlen : (l.filter (fun b => !b == a)).length ≤ n := by
+        have := List.length_filter_le (fun b => !b == a) l
+        simp only [List.length_cons] at hl
+        omega
+      rw [ih _ hlen]
+      have hset : (a :: l).toFinset = insert a (l.filter (fun b => !b == a)).toFinset := by
+        ext x
+        simp only [List.toFinset_cons, Finset.mem_insert, List.mem_toFinset, List.mem_filter,
+          Bool.not_eq_eq_eq_not, Bool.not_true, beq_eq_false_iff_ne, ne_eq]
+        constructor
+        · rintro (h | h)
+          · exact Or.inl h
+          · by_cases hx : x = a
+            · exact Or.inl hx
+            · exact Or.inr ⟨h, hx⟩
+        · rintro (h | h)
+          · exact Or.inl h
+          · exact Or.inr h.1
+      have hnot : a ∉ (l.filter (fun b => !b == a)).toFinset := by
+        simp
+      rw [hset, Finset.card_insert_of_notMem hnot]
+
+theorem eraseDups_length_perm {l l' : List String} (h : l.Perm l') :
+    l.eraseDups.length = l'.eraseDups.length := by
+  rw [eraseDups_length_eq_card _ l le_rfl, eraseDups_length_eq_card _ l' le_rfl,
+    List.toFinset_eq_of_perm _ _ h]
+
+/-- the count the loop produces, as a number of distinct peptides not seen before -/
+def dcount (cutoff : Option Rat) (p : String) (l : List Evidence) (seen : List String) : Nat :=
+  ((((l.filter (fun e => within cutoff e && decide (p ∈ e.proteins))).map (·.peptide)).filter
+    (fun q => decide (q ∉ seen))).eraseDups).length
+
+theorem countLoop_consistent (cutoff : Option Rat) (p : String) :
+    ∀ (l : List Evidence) (seen : List String),
+      l.Pairwise (fun a b => a.pep ≤ b.pep) →
+      (∀ e ∈ l, ∀ e' ∈ l, e.peptide = e'.peptide → (p ∈ e.proteins ↔ p ∈ e'.proteins)) →
+      countLoop cutoff p l seen = dcount cutoff p l seen := by
+  intro l
+  induction l with
+  | nil => intro _ _ _; rfl
+  | cons e r ih =>
+    intro seen hsort hcons
+    have hsort' := (List.pairwise_cons.mp hsort).2
+    have hle := (List.pairwise_cons.mp hsort).1
+    have hcons' : ∀ a ∈ r, ∀ b ∈ r, a.peptide = b.peptide → (p ∈ a.proteins ↔ p ∈ b.proteins) :=
+      fun a ha b hb => hcons a (List.mem_cons_of_mem _ ha) b (List.mem_cons_of_mem _ hb)
+    simp only [countLoop]
+    by_cases hw : within cutoff e = true
+    · simp only [hw, Bool.not_true, Bool.false_eq_true, if_false]
+      by_cases hs : e.peptide ∈ seen
+      · simp only [hs, if_true]
+        rw [ih seen hsort' hcons']
+        unfold dcount
+        by_cases hp : p ∈ e.proteins
+        · simp [hw, hp, hs]
+        · simp [hw, hp]
+      · simp only [hs, if_false]
+        rw [ih (e.peptide :: seen) hsort' hcons']
+        unfold dcount
+        by_cases hp : p ∈ e.proteins
+        · simp only [List.filter_cons, hw, hp, decide_true, Bool.and_self, if_true, List.map_cons,
+            hs, not_false_eq_true, List.eraseDups_cons, List.length_cons]
+          rw [List.filter_filter, Nat.add_comm]
+          congr 3
+          apply List.filter_congr
+          intro q _
+          by_cases hq : q = e.peptide <;> simp [hq, hs]
+        · simp only [List.filter_cons, hw, hp, decide_false, Bool.and_false, Bool.false_eq_true,
+            if_false, Nat.zero_add]
+          congr 2
+          apply List.filter_congr
+          intro q hq
+          obtain ⟨e', he', rfl⟩ := List.mem_map.mp hq
+          have hpe' : p ∈ e'.proteins := by
+            have := (List.mem_filter.mp he').2
+            simp only [Bool.and_eq_true, decide_eq_true_eq] at this
+            exact this.2
+          have hne : e'.peptide ≠ e.peptide := by
+            intro heq
+            exact hp ((hcons e' (List.mem_cons_of_mem _ (List.mem_filter.mp he').1) e (by simp) heq).mp hpe')
+          simp [hne]
+    · have hw' : within cutoff e = false := by simpa using hw
+      simp only [hw', Bool.not_false, if_true]
+      have hall : ∀ e' ∈ e :: r, within cutoff e' = false := by
+        intro e' he'
+        rcases List.mem_cons.mp he' with rfl | he'
+        · exact hw'
+        · cases cutoff with
+          | none => simp [within] at hw'
+          | some c =>
+            simp only [within, decide_eq_false_iff_not, not_le] at hw' ⊢
+            exact lt_of_lt_of_le hw' (hle e' he')
+      unfold dcount
+      have : (e :: r).filter (fun e => within cutoff e && decide (p ∈ e.proteins)) = [] := by
+        rw [List.filter_eq_nil_iff]
+        intro e' he'
+        simp [hall e' he']
+      rw [this]; rfl
+
+theorem cnt_eq_distinctCount_of_consistent (cutoff : Option Rat) (info : List Evidence) (p : String)
+    (hc : ∀ e ∈ info, ∀ e' ∈ info, e.peptide = e'.peptide → (p ∈ e.proteins ↔ p ∈ e'.proteins)) :
+    cnt cutoff info p = distinctCount cutoff info p := by
+  have hperm := sortEv_perm info
+  have hc' : ∀ e ∈ sortEv info, ∀ e' ∈ sortEv info, e.peptide = e'.peptide →
+      (p ∈ e.proteins ↔ p ∈ e'.proteins) :=
+    fun e he e' he' => hc e (hperm.subset he) e' (hperm.subset he')
+  show countLoop cutoff p (sortEv info) [] = _
+  rw [countLoop_consistent cutoff p (sortEv info) [] (sortEv_pairwise info) hc']
+  unfold dcount distinctCount supporting
+  have : ∀ l : List String, l.filter (fun q => decide (q ∉ ([] : List String))) = l := by
+    intro l; simp
+  rw [this]
+  exact eraseDups_length_perm ((hperm.filter _).map _)
+
+theorem cnt_eq_of_consistent (cutoff : Option Rat) (info : List Evidence) (hc : Consistent info)
+    (p : String) : cnt cutoff info p = distinctCount cutoff info p :=
+  cnt_eq_distinctCount_of_consistent cutoff info p (fun e he e' he' h => hc e he e' he' h p)
+
+theorem consistent_of_nodup_aux (info : List Evidence) (hnd : (info.map (·.peptide)).Nodup) :
+    Consistent info := by
+  intro e he e' he' h p
+  have : e = e' := List.inj_on_of_nodup_map hnd he he' h
+  rw [this]
+
 end PgFdr.C06
